@@ -130,7 +130,14 @@ func Sets() []*Set {
 	// 3b. everything about deletion at once (6 blobs)
 	add(&Set{Name: "delete-all-kinds", Blobs: []hs.Blob{A.Pub, pn, setTitle, delPn, delClaim, undel},
 		Attrs: []string{"title"}, Vals: []string{"x"}, MaxRank: 3,
-		Quick: false, DupsThorough: "ends"})
+		Quick: false, DupsThorough: ""})
+
+	// 3c. two deleters of one claim, one of them undone: deleted iff SOME deleter is not itself deleted
+	delClaim2 := A.Delete("del-claim-again", setTitle.Ref, T(3))
+	undel4 := A.Delete("del-del-claim", delClaim.Ref, T(4))
+	add(&Set{Name: "two-deleters", Blobs: []hs.Blob{A.Pub, pn, setTitle, delClaim, delClaim2, undel4},
+		Attrs: []string{"title"}, Vals: []string{"x"}, MaxRank: 4,
+		Quick: true, DupsThorough: ""})
 
 	// 4. attribute history on one permanode arriving in any date order (incremental
 	// attribute cache vs sort at load)
@@ -140,7 +147,7 @@ func Sets() []*Set {
 	setC := A.SetAttr("set-tag-c", pn.Ref, "tag", "c", T(4))
 	add(&Set{Name: "attr-history", Blobs: []hs.Blob{A.Pub, pn, addA, addB, delA, setC},
 		Attrs: []string{"tag"}, Vals: []string{"a", "b", "c"}, MaxRank: 4,
-		Quick: false, DupsThorough: "ends"})
+		Quick: false, DupsThorough: ""})
 
 	// 5. camliPath claim + target permanode (+ delete of the claim)
 	path := A.SetAttr("set-path", pn.Ref, "camliPath:foo", pn2.Ref.String(), T(1))
@@ -174,7 +181,10 @@ func Sets() []*Set {
 		Quick: false, DupsThorough: "ends"})
 	add(&Set{Name: "two-permanodes-order", Blobs: []hs.Blob{A.Pub, pn, pn2, content, sfile, title2},
 		Attrs: []string{"camliContent", "title"}, Vals: []string{refStr(sfile), "y"}, MaxRank: 2,
-		Quick: true, DupsThorough: "ends"})
+		Quick: false, DupsThorough: "ends"})
+	add(&Set{Name: "camlicontent-small", Blobs: []hs.Blob{A.Pub, pn, content, sfile, small},
+		Attrs: []string{"camliContent"}, Vals: []string{refStr(sfile)}, MaxRank: 1,
+		Quick: true, DupsQuick: "", DupsThorough: "all"})
 
 	// 9. directory + static-set + file
 	sset := world.StaticSet("static-set", sfile.Ref)
@@ -271,10 +281,13 @@ func withDups(p []int, mode string) [][]int {
 
 // Histories returns every arrival history of the set for the tier: all
 // permutations, then all single re-deliveries.
-func (s *Set) Histories(thorough bool) [][]int {
+func (s *Set) Histories(thorough, fileBacked bool) [][]int {
 	mode := s.DupsQuick
 	if thorough {
 		mode = s.DupsThorough
+	}
+	if mode == "all" && len(s.Blobs) >= 5 {
+		mode = "ends" // every single re-delivery only for sets of up to 4 blobs
 	}
 	var out [][]int
 	ps := perms(len(s.Blobs))
